@@ -8,14 +8,20 @@
    followed by steps of 2-10 s, whole-day steps, mixtures).  Calendar.tla supplies the midnights
    (day / month / leap-day / year ends inside the Earth-orientation table) the runs are placed
    around, and is itself checked there (StartInversionExact).
-2. Both named deviations of the specification must be refuted by TLC (non-vacuity): the as-coded
-   start inversion (InvertStartBySecTruncation) and the site captured at the join epoch but
-   converted with the start epoch (CaptureAtJoinEpoch) each break SiteFixed.
+   The site's configuration OBJECT is a participant of the specification: it may already have been
+   converted at another epoch (ConvertIgnoresHistory).
+2. The named deviations of the specification must each be refuted by TLC (non-vacuity): the as-coded
+   start inversion (InvertStartBySecTruncation), the site captured at the join epoch but converted
+   with the start epoch (CaptureAtJoinEpoch) and a conversion memo on the config object that ignores
+   the epoch (CacheIgnoresEpoch) each break SiteFixed.
 3. impl -> spec: REAL scenarios with ground sensors configured in latitude / longitude /
    altitude (public configuration keys), start instants sweeping the second of the minute and
    crossing midnights, steps 2-900 s; in every scenario one or two of the sites are left out of
    the initial configuration and added after `join` real steps (1 step .. hours) through the
-   public Scenario.addSensor(sensor_dict, engine_id).  For elapsed times of days and whole-day
+   public Scenario.addSensor(SensingAgentConfig object, engine_id).  Scenarios are built from
+   validated config OBJECTS; for about half of the sites a "scenario A" starting 6 h 17 min 43 s
+   earlier is built from the same objects first.  Every agent is also observed at the instant it
+   is created / joins, before any propagation.  For elapsed times of days and whole-day
    steps, ground agents are built like ScenarioBuilder builds them and stepped directly through
    the step plans printed by TLC.  After every real step the driver projects each ground
    agent to integers: displacement (mm) between the configured Earth-fixed position
@@ -110,19 +116,43 @@ def _observe(a, start, auth, clock_ms):
             "dbDispMm": -1}
 
 
+PRIOR_SHIFT = timedelta(hours=6, minutes=17, seconds=43)     # start of "scenario A" before the real start
+
+
+def _build_from_objects(cfg):
+    """Real ScenarioConfig -> ScenarioBuilder -> Scenario like scenario_util.build, but WITHOUT copying
+    the configuration: validated config objects placed in cfg are used as they are."""
+    from .. import scenario_util as su
+    from resonaate.scenario.config import ScenarioConfig
+    from resonaate.scenario.scenario import Scenario
+    from resonaate.scenario.scenario_builder import ScenarioBuilder
+    su.sched.reset()
+    su.reset_db()
+    b = ScenarioBuilder(ScenarioConfig(**cfg))
+    return Scenario(b.config, b.clock, b.target_agents, b.estimate_agents, b.sensor_agents, b.tasking_engines,
+                    importer_db_path=None, logger=b.logger)
+
+
 def _run_sites(task):
-    """One REAL scenario.  Sites with join > 0 are left out of the initial configuration and added
-    after `join` real steps through the public Scenario.addSensor(sensor_dict, engine_id)."""
+    """One REAL scenario, built from validated SensingAgentConfig OBJECTS (one per site).
+
+    Sites flagged `reused` had their config object used before: "scenario A" with another start
+    instant is built from the same objects first (ScenarioBuilder converts them at A's start).
+    Sites with join > 0 are left out of the initial configuration and added after `join` real steps
+    through the public Scenario.addSensor(SensingAgentConfig object, engine_id).  Every agent is
+    observed at the instant it is created (st0) and after every step."""
     import copy
     import numpy as np
     from .. import scenario_util as su
     from resonaate.data.ephemeris import TruthEphemeris
     from resonaate.data.epoch import Epoch
     from resonaate.physics.transforms.methods import eci2ecef
+    from resonaate.scenario.config.agent_config import SensingAgentConfig
     from sqlalchemy.orm import Query
     start = su.parse_iso(task["start"])
     dt, nsteps, sites = task["dt"], task["steps"], task["sites"]
     joins = task.get("joins") or [0] * len(sites)
+    reused = task.get("reused") or [0] * len(sites)
     out = {"id": task["id"], "crash": None, "agents": []}
     try:
         cfg = su.base_config(start=start, step=dt, n_steps=nsteps, n_targets=1, n_sensors=len(sites),
@@ -132,18 +162,31 @@ def _run_sites(task):
             if sc["platform"]["type"] != "ground_facility":
                 raise RuntimeError("test configuration sensor is not a ground facility")
             sc["state"] = {"type": "lla", "latitude": lat, "longitude": lon, "altitude": alt}
-        late = [(copy.deepcopy(sc), site, j) for sc, site, j in zip(sensors, sites, joins) if j > 0]
-        first = [(sc, site) for sc, site, j in zip(sensors, sites, joins) if j == 0]
+        objs = [SensingAgentConfig(**sc) for sc in sensors]          # the validated config objects
+        if any(reused):      # scenario A: other start instant, built (not run) from the same objects
+            cfg_a = su.base_config(start=start - PRIOR_SHIFT, step=dt, n_steps=1, n_targets=1, n_sensors=1,
+                                   truth_only=True, model="two_body")
+            cfg_a["engines"][0]["sensors"] = [o for o, r in zip(objs, reused) if r]
+            _build_from_objects(cfg_a)
+        late = [(o, sc["id"], site, j, r) for o, sc, site, j, r in zip(objs, sensors, sites, joins, reused) if j > 0]
+        first = [(o, sc["id"], site, r) for o, sc, site, j, r in zip(objs, sensors, sites, joins, reused) if j == 0]
         if not first:
             raise RuntimeError("driver: a scenario needs a sensor from the start")
-        cfg["engines"][0]["sensors"] = [sc for sc, _ in first]
+        cfg["engines"][0]["sensors"] = [o for o, _, _, _ in first]
         engine_id = cfg["engines"][0]["unique_id"]
-        app = su.build(cfg)
+        app = _build_from_objects(cfg)
         agents = []
-        for sc, site in first:
-            a = _site_record(app.sensor_agents[sc["id"]], site, sc["id"], start)
-            a["join"] = a["rec"]["join"] = 0
+
+        def enrol(agent_id, site, j, r):
+            a = _site_record(app.sensor_agents[agent_id], site, agent_id, start)
+            a["join"] = a["rec"]["join"] = j
+            a["rec"]["reused"] = int(bool(r))
+            a["rec"]["st0"] = _observe(a, start, start + timedelta(seconds=j * dt),
+                                       cal.ms_between(app.clock.datetime_epoch, start))
             agents.append(a)
+
+        for _o, agent_id, site, r in first:
+            enrol(agent_id, site, 0, r)
         k = [0]
         real_step = app.stepForward
 
@@ -159,18 +202,16 @@ def _run_sites(task):
 
         app.stepForward = traced_step                  # wrapper on the instance, no source hook
         done = 0
-        for stop in sorted({j for _, _, j in late if j < nsteps}) + [nsteps]:
+        for stop in sorted({j for _, _, _, j, _ in late if j < nsteps}) + [nsteps]:
             if stop > done:
                 su.run_for(app, (stop - done) * dt)    # public Scenario.propagateTo
                 done = stop
             if k[0] != done:
                 break                                  # (unexpected step count: reported by the caller)
-            for sc, site, j in late:
+            for o, agent_id, site, j, r in late:
                 if j == stop:
-                    app.addSensor(sc, engine_id)       # public call, the clock stands at start + j*dt
-                    a = _site_record(app.sensor_agents[sc["id"]], site, sc["id"], start)
-                    a["join"] = a["rec"]["join"] = j
-                    agents.append(a)
+                    app.addSensor(o, engine_id)        # public call with the config OBJECT, clock at start + j*dt
+                    enrol(agent_id, site, j, r)
         db = app.database
         iso_of = {float(e.julian_date): e.timestampISO for e in db.getData(Query(Epoch))}
         for a in agents:
@@ -229,6 +270,7 @@ def _run_plans(task):
                 ag = SensingAgent.fromConfig(sen_cfg=sen_cfg, clock=clock, dynamics=dynamics, prop_cfg=config.propagation)
                 a = _site_record(ag, site, sc["id"], start)
                 a["rec"]["plan"] = list(plan)
+                a["rec"]["st0"] = _observe(a, start, start, 0)
                 agents.append(a)
             elapsed = 0
             for d in plan:
@@ -312,6 +354,9 @@ def _tasks(ctx: Ctx, site_cfgs, mids, rng):
                 joins = [0] * len(sites)
                 for q in range(len(sites) - 1, max(0, len(sites) - (2 if ctx.quick else 3)), -1):
                     joins[q] = jclasses[(sec + j + ti + q) % len(jclasses)]
+                # config objects: fresh, or already converted by a scenario with another start (classes by TLC)
+                rclasses = sorted({c["reused"] for c in classes})
+                reused = [rclasses[(sec + j + ti + q) % len(rclasses)] for q in range(len(sites))]
                 nsteps = key[2] + max(joins)
                 total = dt * nsteps
                 if ti == 0:      # a start in the middle of the day before the boundary
@@ -324,7 +369,7 @@ def _tasks(ctx: Ctx, site_cfgs, mids, rng):
                         minutes -= 1
                     t0 = mid - timedelta(minutes=minutes) + timedelta(seconds=sec)
                 tasks.append({"id": len(tasks), "start": cal.fmt(t0), "dt": dt, "steps": nsteps,
-                              "sites": sites, "joins": joins, "boundary": kind,
+                              "sites": sites, "joins": joins, "reused": reused, "boundary": kind,
                               "crosses": t0 < mid <= t0 + timedelta(seconds=total), "theta0": theta})
     # long runs (hours to a day, always crossing a midnight): elapsed times beyond the bound TLC explored
     all_lons = sorted({c["lon"] for c in site_cfgs})
@@ -339,7 +384,7 @@ def _tasks(ctx: Ctx, site_cfgs, mids, rng):
         joins = [0] * len(sites)
         joins[-1] = 8 + j % 5 if ctx.quick else steps // 4 + j % 7     # joins 1.5 - 6 h into the run
         tasks.append({"id": len(tasks), "start": cal.fmt(t0), "dt": dt, "steps": steps, "sites": sites, "joins": joins,
-                      "boundary": kind, "crosses": True, "theta0": -1})
+                      "reused": [(j + q) % 2 for q in range(len(sites))], "boundary": kind, "crosses": True, "theta0": -1})
     return tasks
 
 
@@ -391,8 +436,10 @@ def _project(task, rec, idx):
         s = dict(s)
         s["jdOk"] = idx.jd_ok(s.pop("jd"), start + timedelta(seconds=elapsed))
         st.append(s)
+    st0 = dict(rec["st0"])
+    st0["jdOk"] = idx.jd_ok(st0.pop("jd"), start + timedelta(seconds=join * task.get("dt", 0)))
     return {"startSec": start.second, "dt": task.get("dt", 1), "plan": plan[:len(st)], "db": 0 if "plan" in rec else (2 if join else 1),
-            "join": join, "invMs": rec["invMs"], "st": st}
+            "join": join, "reused": rec.get("reused", 0), "invMs": rec["invMs"], "st0": st0, "st": st}
 
 
 def _validate(ctx: Ctx, items, idx):
@@ -435,10 +482,12 @@ def _validate(ctx: Ctx, items, idx):
     for tid, invs in sorted(rejected.items()):
         task, rec = items[tid - 1]
         tr = traces[tid - 1]
-        worst = max((s["dispMm"] for s in tr["st"]), default=0)
+        worst = max([s["dispMm"] for s in tr["st"]] + [tr["st0"]["dispMm"]])
         how = f"stepped directly with plan {rec['plan']} s" if "plan" in rec else f"scenario step {task['dt']} s"
         if rec.get("join", 0):
             how += f", added through Scenario.addSensor after {rec['join']} steps ({rec['join'] * task['dt']} s)"
+        if rec.get("reused", 0):
+            how += ", config object already used for a scenario starting 6 h 17 min 43 s earlier"
         mode = "agent" if "plan" in rec else "scenario"
         for inv in sorted(invs):
             ctx.violation(SIG_OF_INV.get(inv, inv),
@@ -446,7 +495,8 @@ def _validate(ctx: Ctx, items, idx):
                           f"{inv} violated (start inversion error {tr['invMs']} ms, largest displacement "
                           f"{worst / 1000:.1f} m over {len(tr['st'])} steps)",
                           {"mode": mode, "start": task["start"], "dt": task.get("dt"), "steps": task.get("steps"),
-                           "plan": rec.get("plan"), "sites": [rec["site"]], "join": rec.get("join", 0), "trace": tr})
+                           "plan": rec.get("plan"), "sites": [rec["site"]], "join": rec.get("join", 0),
+                           "reused": rec.get("reused", 0), "trace": tr})
     ctx.traces_validated += len(traces)
     return accepted, rejected, traces
 
@@ -471,7 +521,14 @@ def _spec_mutant(workdir):
     killed_join = sorted({v[0] for v in res.invariant_violations})
     if "SiteFixed" not in killed_join:
         raise tlc.MachineryError("GroundSite.tla: capturing the site at the join epoch does not violate SiteFixed (vacuous spec)")
-    return {"GroundSite.InvertStartBySecTruncation": sorted(killed), "GroundSite.CaptureAtJoinEpoch": killed_join}
+    res = tlc.run_tlc("GroundSite", base.replace("CacheIgnoresEpoch = FALSE", "CacheIgnoresEpoch = TRUE")
+                      .replace("INVARIANT ConvertIgnoresHistory\n", ""), workdir, workers=2, timeout=600)
+    tlc.require_ok(res, "GroundSite (conversion memoised on the config object)")
+    killed_cache = sorted({v[0] for v in res.invariant_violations})
+    if "SiteFixed" not in killed_cache:
+        raise tlc.MachineryError("GroundSite.tla: a conversion cache that ignores the epoch does not violate SiteFixed (vacuous spec)")
+    return {"GroundSite.InvertStartBySecTruncation": sorted(killed), "GroundSite.CaptureAtJoinEpoch": killed_join,
+            "GroundSite.CacheIgnoresEpoch": killed_cache}
 
 
 def run(ctx: Ctx):
@@ -492,7 +549,9 @@ def run(ctx: Ctx):
                 "GroundSite.tla (first step to 3 h / 2.5 d / 12 d elapsed then steps of 2-10 s, whole-day steps, mixtures), "
                 "every start second, quick: 6-7 of 19 plans per start second rotating, thorough: all 87; in every scenario "
                 "the last site (thorough: the last two) joins after 0..3 (thorough 0..4) steps (join classes printed by "
-                "TLC; long runs: after 1.5-6 h) through Scenario.addSensor")
+                "TLC; long runs: after 1.5-6 h) through Scenario.addSensor(config object); about half of the sites use a "
+                "config object already converted by a scenario with another start instant (reuse classes printed by TLC); "
+                "every agent is also observed at its creation / join instant")
     ctx.assumptions = [
         "eci2ecef / lla2ecef of the implementation are used as the projection to Earth-fixed coordinates (subject of C04)",
         "authoritative epoch of step k is start + k*step by datetime arithmetic",
@@ -552,7 +611,7 @@ def run(ctx: Ctx):
         for rec in r["agents"]:
             items.append((t, rec))
             n_steps += len(rec["st"])
-            ctx.case((t["start"], t["dt"], tuple(rec["site"]), rec.get("join", 0)),
+            ctx.case((t["start"], t["dt"], tuple(rec["site"]), rec.get("join", 0), rec.get("reused", 0)),
                      sample={"start": t["start"], "dt": t["dt"], "site": rec["site"], "join": rec.get("join", 0),
                              "boundary": t["boundary"],
                              "crosses_midnight": t["crosses"], "last_step": rec["st"][-1]} if len(items) % 131 == 1 else None)
@@ -579,7 +638,8 @@ def run(ctx: Ctx):
                      traces_rejected=len(rejected), scenarios_with_unexpected_step_count=short, scenarios_crossing_midnight=sum(1 for t in tasks if t["crosses"]),
                      start_seconds_covered=len({t["start"][-2:] for t in tasks}),
                      spec_mutants_killed=killed, phase_done_at_s=phase,
-                     late_joining_agent_traces=sum(1 for _t, rec in items if rec.get("join", 0) > 0))
+                     late_joining_agent_traces=sum(1 for _t, rec in items if rec.get("join", 0) > 0),
+                     agent_traces_from_reused_config_objects=sum(1 for _t, rec in items if rec.get("reused", 0)))
 
 
 def replay(ctx: Ctx, rp: dict):
@@ -600,6 +660,7 @@ def replay(ctx: Ctx, rp: dict):
         if rep.get("join", 0):       # a late joiner needs a scenario with some sensor from the start
             t["sites"] = [(LATS[1], 10.0, ALTS[1])] + t["sites"]
             t["joins"] = [0] + [rep["join"]] * (len(t["sites"]) - 1)
+        t["reused"] = [rep.get("reused", 0)] * len(t["sites"])
         r = _run_sites(t)
     if r["crash"]:
         ctx.violation(f"ground-scenario-raised-{r['crash'].split(':')[0]}", r["crash"], rep)
